@@ -115,6 +115,15 @@ def run_case(case):
             per_pass_ok.append(all(not check_instr(ports, f, n + 1) for f in k))
     except Exception as e:
         return [("crash", "assign_optimal_throughput raised " + repr(e), False)], None, None, None
+    # the micro-ops an instruction ends up with are its OWN (for forms with alternatives: one of its own alternatives)
+    def norm(u):
+        return [[c, "".join(ps) if all(len(p) == 1 for p in ps) else list(ps)] for c, ps in u]
+
+    for f, orig in zip(k, forms):
+        got = f.port_uops
+        own = list(orig.values()) if isinstance(orig, dict) else [orig]
+        if npass and not isinstance(got, dict) and norm(got) not in [norm(o) for o in own]:
+            fails.append(("foreign-uops", f"{f.line}: micro-ops after balancing {got} are none of the instruction's own {own}", False))
     for f in k:
         for what, detail in check_instr(ports, f, npass):
             # known class: the SECOND pass on an instruction whose micro-ops have overlapping but different port sets,
